@@ -419,7 +419,7 @@ def _inline_one(B, bb, H):
             nb["term"] = {"t": "goto", "target": unwind, "line": nt.get("line", line)}
         B["blocks"].append(nb)
     B["blocks"][bb]["stmts"] = B["blocks"][bb]["stmts"] + pre
-    B["blocks"][bb]["term"] = {"t": "goto", "target": boff, "line": line, "inlined": _sg(H["name"])}
+    B["blocks"][bb]["term"] = {"t": "goto", "target": boff, "line": line, "inlined": _sg(H["name"]), "inl_args": copy.deepcopy(t.get("args", []))}
 
 
 def _refs_outside_calls(units, key):
